@@ -512,6 +512,20 @@ func c08Census(c *eng.Ctx, r *eng.Report) {
 			continue
 		}
 		got := guardTriples(c, fn)
+		// a guard that moved into a private helper of the package (one that has no
+		// reference row of its own) still guards the function that calls it
+		for _, cs := range eng.Sites(fn) {
+			h := cs.Common().StaticCallee()
+			if h == nil || h.Pkg != fn.Pkg || h == fn || h.Blocks == nil {
+				continue
+			}
+			hn := strings.Replace(eng.FuncName(h), h.Pkg.Pkg.Name()+".", "", 1)
+			hn = strings.Replace(hn, "storage/", "", 1)
+			if _, own := canonReference[hn]; own || token.IsExported(h.Name()) {
+				continue
+			}
+			got = append(got, guardTriples(c, h)...)
+		}
 		has := map[string]bool{}
 		for _, g := range got {
 			has[g] = true
